@@ -109,6 +109,7 @@ def run(ctx):
                 mod.rel,
                 n.lineno,
             )
+    marker_rows_in_final_transaction(r1, repo, nonempty_ok)
     # subtree rows for one call node are written in one transaction
     rc = db.func("RedunBackendDb.record_call_node")
     loops = [st for st in ast.walk(rc) if isinstance(st, ast.For) and any(call_name(c) == "CallSubtreeTask" for c in calls_in(st))]
@@ -247,6 +248,63 @@ def run(ctx):
     gs = m.func("Scheduler._get_subtree_tasks")
     ok = any(call_name(c) == "self.backend.get_subtree_tasks" and c.args and src(c.args[0]).endswith(".call_hash") for c in calls_in(gs))
     r4.check(ok, f"{m.rel}:Scheduler._get_subtree_tasks", "_get_subtree_tasks does not query the backend for the hit's call_hash", m.rel, gs.lineno)
+
+
+def marker_rows_in_final_transaction(rule, repo, nonempty_ok=None):
+    """A CallNode writer that is not atomic relies on the reader's `recorded set is non-empty` test to tell an interrupted recording from a
+    finished one.  That only works when *every* CallSubtreeTask row of the node is added after the last intermediate commit point: a row added
+    earlier becomes durable with the half-written node and makes it look finished (with a subtree set that misses the children's tasks)."""
+    db = repo.mod(DB)
+    commits = commit_summary(db.cls("RedunBackendDb"))
+    if nonempty_ok is None:
+        _, nonempty_ok, _ = reader_guard(db)
+    n_sites = 0
+    for mod in repo.modules.values():
+        for n in ast.walk(mod.tree):
+            if not (isinstance(n, ast.Call) and call_name(n) in ("CallNode", "db.CallNode")):
+                continue
+            cq = mod.enclosing_qual(n)
+            if mod.rel == DB and cq.startswith("CallNode"):
+                continue
+            fn = mod.enclosing_func(n)
+            subs = sorted((c for c in calls_in(fn) if call_name(c) in ("CallSubtreeTask", "db.CallSubtreeTask")), key=lambda c: (c.lineno, c.col_offset))
+            if not subs:
+                continue
+            n_sites += 1
+            if not _commits_between(mod, fn, n, subs[-1], commits):
+                rule.good(f"{mod.rel}:{cq}:subtree-marker", "atomic writer")
+                continue
+            early = []
+            for c in subs:
+                later = [x for x in _commits_after(mod, fn, c, commits)]
+                if len(later) > 0 and _commits_between(mod, fn, c, subs[-1], commits):
+                    early.append((c, _commits_between(mod, fn, c, subs[-1], commits)))
+            rule.check(
+                not early,
+                f"{mod.rel}:{cq}:subtree-marker",
+                (
+                    f"the CallSubtreeTask row added at line {early[0][0].lineno} is committed by {', '.join(sorted(set(early[0][1])))} before the remaining subtree rows are written: "
+                    "an interrupted or retried recording leaves a call node with a non-empty but partial subtree set, which passes _get_call_node's `recorded set is non-empty` guard and is "
+                    "replayed by ultimate reduction even after a child task was edited"
+                )
+                if early
+                else "",
+                mod.rel,
+                early[0][0].lineno if early else n.lineno,
+            )
+    if n_sites < 1:
+        raise AnalysisError("no CallNode writer that also writes CallSubtreeTask rows found", "CallSubtreeTask")
+
+
+def _commits_after(mod, fn, node, commits) -> list[str]:
+    from ..core import stmt_of
+
+    s1 = stmt_of(mod, node)
+    out = []
+    for st in ast.walk(fn):
+        if isinstance(st, ast.stmt) and not isinstance(st, (ast.If, ast.For, ast.While, ast.With, ast.Try, FuncNode)) and (st.lineno, st.col_offset) > (s1.end_lineno, s1.end_col_offset):
+            out += expr_commits(st, commits)
+    return out
 
 
 def _commits_between(mod, fn, first: ast.AST, last: ast.AST, commits) -> list[str]:
